@@ -23,6 +23,20 @@ Binding (mode A), two layers:
       succeed iff the spec's handshake completes (d = a), and then Connection::remote_id() must be
       d on the dialer and c on the acceptor.
 
+Weak keys (added after an independently written breaking change slipped through): an endpoint id
+only has to be a curve point, and the small-order points are curve points for which nobody holds a
+secret.  The spec has a key class WeakKeys and an adversary-constructible signature term Forgery
+(s = 0, R small-order: satisfies the permissive Ed25519 equation for a small-order key and every
+transcript); `Verifies` is the strict check (constant Strict, FALSE = dalek's plain verify, refuted
+by TLC with exactly the impostor offer <<Enc(w), Spki(w), 0, Forgery>> against held = {}); DialAuth /
+ClientAuth range over weak ids too and NoWeakIdentity says nobody is ever authenticated as one.
+The verifier layer runs every offer that involves the weak key once per small-order encoding that
+EndpointId::from_bytes accepts (all 8 torsion points and their other spellings, exhaustively) as
+dialed id and presented SPKI, and every Forgery offer with the whole list of forged signatures
+(s = 0 with R each small-order encoding and R = the presented key), on the server-cert and the
+client-cert side; `vh_ident c01i` adds the end-to-end impostor: a hand-rolled noq/rustls peer without
+any secret key against a real endpoint, dialing and accepting.
+
 Growth: specs/identity/TlsSession.tla models several dials of one endpoint with rustls' session cache
 (resumed handshakes skip the certificate check; the cache is bucketed by the id-derived server name);
 TLC proves SessionAuth / BucketsPartitioned, refutes the constant-server-name variant, and a seeded
@@ -46,6 +60,12 @@ run in a private copy of /repo + /verif under /var/tmp/ident-mut, see checks/c02
     wrongTld forms (VIOLATION what=name::decode);
   * verify_client_cert tolerating one intermediate -> server-side offers with inter = 1 accepted
     (VIOLATION what=verify_client_cert).
+  * seeded/_incoming/C01/patch.diff (Ed25519Dalek::verify_signature through dalek's permissive
+    `Verifier::verify`): not caught before the weak-key classes existed; now VIOLATION
+    what=verify_tls13_signature for the Forgery offers on both sides and kind=keyless_peer_authenticated
+    in the impostor layer (bin/seedtest, scratch worktree);
+  * seeded/_incoming/C01/patch2.diff (name::decode matching labels from the TLD downwards, extra
+    leading labels tolerated) -> VIOLATION what=name::decode for the subdomain form.
 """
 import json
 
@@ -59,7 +79,8 @@ META = {
                  "offers also end-to-end between real endpoints on 127.0.0.1",
     "text": "TLC proves on the model that a handshake for dialed id K completes only if the peer holds K's secret key and "
             "that both sides then report the key the other side holds, for every combination of server-name form, "
-            "end-entity blob class, intermediates, signer (held key, foreign key, replayed signature, garbage) and "
+            "end-entity blob class, intermediates, signer (held key, foreign key, replayed signature, garbage, the universal "
+            "forgery for small-order keys) and "
             "signature scheme; each such offer is built from real Ed25519 material and given to iroh's "
             "ServerCertificateVerifier / ClientCertificateVerifier / name::decode, whose accept/reject must equal the "
             "model's; every (dialer, dialed id, key actually held) triple is dialed between real endpoints and must "
@@ -151,10 +172,35 @@ def judge_e2e(ctx, cases, tag, seed=None):
             ctx.sample({"e2e": desc, "connected": False, "client_error": o["client_error"][:160], "ms": o["elapsed_ms"]}, limit=6)
 
 
+def judge_impostor(ctx, cases, tag):
+    """A peer without any secret key presents a small-order point and the universal forgery (noq/rustls by hand)."""
+    inp = ctx.write_ndjson("c01i-%s.in" % tag, cases)
+    outp = ctx.path("c01i-%s.out" % tag)
+    ctx.run_bin("vh_ident", ["c01i", "--in", inp, "--out", outp], timeout=600)
+    obs = ctx.read_ndjson(outp)
+    if len(obs) != len(cases):
+        raise ToolError("impostor harness returned %d observations for %d cases" % (len(obs), len(cases)))
+    for c, o in zip(cases, obs):
+        if o.get("env_error"):
+            raise ToolError("e2e environment problem (impostor): %s" % o["env_error"])
+        role = "dials the weak id at" if c["side"] == "client" else "accepts a connection from"
+        desc = "a real endpoint %s a peer that holds no secret key (weak point + universal forgery)" % role
+        ctx.count({"impostor": c["side"]}, nontrivial=True)
+        if o["established"] != c["complete"]:
+            ctx.report({"layer": "impostor", "side": c["side"], "kind": "keyless_peer_authenticated" if o["established"] else "refused"},
+                       "%s: spec says complete = %s, the endpoint has %s (remote_id() = %s; %s)"
+                       % (desc, c["complete"], "an established connection" if o["established"] else "no connection",
+                          o["remote"] or "-", o["error"][:160]), {"layer": "impostor", "case": c})
+        else:
+            ctx.sample({"impostor": desc, "established": o["established"], "error": o["error"][:160]}, limit=10)
+
+
 def e2e_cases(replays, again):
-    client = {(c["o"]["nkey"], c["o"]["ekey"]): c for c in replays if c["honest"] and c["side"] == "client"}
     server = {c["o"]["ekey"]: c for c in replays if c["honest"] and c["side"] == "server"}
     keys = sorted(server)
+    # ids that somebody can hold (dialing a weak id is the impostor layer's business)
+    client = {(c["o"]["nkey"], c["o"]["ekey"]): c for c in replays
+              if c["honest"] and c["side"] == "client" and c["o"]["nkey"] in server}
     if len(client) != len(keys) ** 2:
         raise ToolError("expected %d honest client offers, TLC printed %d" % (len(keys) ** 2, len(client)))
     out = []
@@ -302,15 +348,19 @@ def run(ctx):
             judge_verifier(ctx, [rep["case"]], rep["n"], "replay")
         elif rep["layer"] == "sessions":
             judge_sessions(ctx, [rep["case"]], "replay")
+        elif rep["layer"] == "impostor":
+            judge_impostor(ctx, [rep["case"]], "replay")
         else:
             judge_e2e(ctx, [rep["case"]], "replay")
         return
     inter = ctx.pick(1, 2)
-    base = {"MaxInter": inter, "CheckSpki": "TRUE", "CheckSig": "TRUE"}
+    base = {"MaxInter": inter, "CheckSpki": "TRUE", "CheckSig": "TRUE", "Strict": "TRUE"}
     # 1. the proof: every offer x every set of keys the peer may hold
     ctx.tlc("identity", "TlsAuth", mode="mc", constants=dict(base, HeldMode='"all"'), require_actions=ACTIONS, timeout=1500)
     # 2. anti-vacuity: without the SPKI comparison / without the signature check authentication is refuted
-    for weak in ({"CheckSpki": "FALSE", "CheckSig": "TRUE"}, {"CheckSpki": "TRUE", "CheckSig": "FALSE"}):
+    #    ... and with the permissive Ed25519 check a key-less peer is authenticated as a small-order id
+    for weak in ({"CheckSpki": "FALSE", "CheckSig": "TRUE", "Strict": "TRUE"}, {"CheckSpki": "TRUE", "CheckSig": "FALSE", "Strict": "TRUE"},
+                 {"CheckSpki": "TRUE", "CheckSig": "TRUE", "Strict": "FALSE"}):
         ctx.tlc("identity", "TlsAuth", cfg="TlsAuth_refute.cfg", mode="mc", workers=1, constants=weak, coverage=False,
                 expect_violation="DialAuth", timeout=600)
     # 3. every offer with the expected verdicts
@@ -335,6 +385,11 @@ def run(ctx):
     seeds = [ctx.seed] if ctx.quick else [ctx.seed, ctx.seed + 1, ctx.seed + 2]
     for s in seeds:
         judge_e2e(ctx, e2e, "s%d" % s, seed=s)
+    # 4b. the key-less impostor (weak id + universal forgery) against a real endpoint, both directions
+    imp = [dict(c, idx=i) for i, c in enumerate(x for x in cases if x["impostor"])]
+    if sorted(c["side"] for c in imp) != ["client", "server"]:
+        raise ToolError("expected one impostor offer per side from TLC, got %d" % len(imp))
+    judge_impostor(ctx, imp, "all")
     binding_selftest(ctx, cases, e2e)
     # 5. growth: several dials of one endpoint with the TLS session cache in play (TlsSession.tla)
     dials = ctx.pick(3, 4)
